@@ -7,8 +7,9 @@ case. The Go side (vmut mutate) takes the product with every offline built-in fi
 <= 256 KiB under its testdata and the production paths its FileRequired accepts, applies the plan and calls the REAL
 Extract in a child process under recover + watchdog (10 s, confirmed only if 100 s also pass) + allocation budget
 (1 GiB live heap+stacks above the level before the call). The specification admits one outcome class, "Returned";
-a Panic (recovered or fatal to the process), a confirmed Timeout or an OOM is a violation, identified by
-<extractor, fixture, plan>, with the reproducing bytes in the replay record.
+a Panic (recovered or fatal to the process), a confirmed Timeout, an OOM or an inventory the engine cannot consume
+(nil entry; ToPURL panics) is a violation, identified by <extractor, fixture, plan>, with the reproducing bytes in the
+replay record. Also: archive-member plans, companion-file units and TLC-enumerated include graphs (IncludeGraph.tla).
 quick: all plans of depth <= 1 and a VERIF_SEED-stratified sample of the depth-2 plans per <extractor, fixture, path>;
 thorough: all plans.
 (b) containment: tools/c02_b.py (optional import).
@@ -81,6 +82,8 @@ def part_a(ck, replay):
                 fh.write(json.dumps(replay["plan"]) + "\n")
             nplans = 1
             hargs = ["-a", "ex=" + replay["ex"], "-a", "fixture=" + replay["fixture"], "-a", "path=" + replay["path"]]
+            if replay.get("target"):
+                hargs += ["-a", "target=" + replay["target"]]
         else:
             s = vf.tlc("MutationPlan", "MutationPlan-sanity.cfg", workers=2, collect=False, timeout=120)
             if s.violated != "SanityDepth2":
@@ -134,7 +137,7 @@ def part_a(ck, replay):
         # ---- verdicts ----
         by_class, other = {}, {}
         for f in findings:
-            if f["class"] not in ("Panic", "Timeout", "OOM"):
+            if f["class"] not in ("Panic", "Timeout", "OOM", "BadInventory"):
                 raise vf.NotAVerdict("unknown outcome class %r" % f["class"])
             c = class_of(f)
             if c is not None:
@@ -143,11 +146,12 @@ def part_a(ck, replay):
                 other.setdefault((f["ex"], f["class"], signature(f)), []).append(f)
 
         def record(f):
-            return {"part": "a", "ex": f["ex"], "fixture": f["fixture"], "path": f["path"], "plan": f["plan"], "plan_str": f["plan_str"],
+            return {"part": "a", "ex": f["ex"], "fixture": f["fixture"], "path": f["path"], "target": f.get("target") or "", "seed": f.get("seed") or "",
+                    "plan": f["plan"], "plan_str": f["plan_str"],
                     "class": f["class"], "detail": f["detail"][:6000], "bytes_b64": f.get("bytes_b64"), "size": f["size"], "sha256": f["sha256"]}
 
         def triples(fs, n=25):
-            return ["%s | %s | %s" % (f["ex"], f["fixture"].split("testdata/")[-1], f["plan_str"]) for f in fs[:n]]
+            return ["%s | %s%s | %s" % (f["ex"], f["fixture"].split("testdata/")[-1], (" + companion " + f["target"]) if f.get("target") else "", f["plan_str"]) for f in fs[:n]]
 
         for cid, fs in sorted(by_class.items()):
             fs.sort(key=lambda f: ("bytes_b64" not in f, f["size"], len(f["plan"]["ops"])))
@@ -162,8 +166,9 @@ def part_a(ck, replay):
             w = fs[0]
             rec = record(w)
             rec["other_witnesses"] = triples(fs[1:])
-            ck.violation("Extract did not return: %s in %s at %s; %d witness(es), smallest: fixture %s at path %s, plan %s (%d bytes): %s"
-                         % (cls, ex, sig, len(fs), w["fixture"], w["path"], w["plan_str"], w["size"], w["detail"].splitlines()[0][:300] if w["detail"] else ""), rec)
+            ck.violation("Extract did not return: %s in %s at %s; %d witness(es), smallest: fixture %s at path %s%s, plan %s (%d bytes): %s"
+                         % (cls, ex, sig, len(fs), w["fixture"], w["path"], (" with the plan applied to its companion " + w["target"]) if w.get("target") else "",
+                            w["plan_str"], w["size"], w["detail"].splitlines()[0][:300] if w["detail"] else ""), rec)
 
         # ---- coverage ----
         ck.count(evals)
@@ -181,6 +186,9 @@ def part_a(ck, replay):
         ck.cov["a_extractors_covered"] = [{"extractor": c["extractor"], "fixtures": c["fixtures"], "fixtures_over_256k": c["fixtures_over_256k"], "paths": c["paths"]} for c in meta["covered"]]
         ck.cov["a_extractors_skipped"] = meta["skipped"]
         ck.cov["a_skipped_scenarios_of_listed_classes"] = meta.get("skipped_known_class") or {}
+        ck.cov["a_companion_units"] = meta.get("companion_units", 0)
+        ck.cov["a_companions_without_a_seed"] = meta.get("companions_without_seed") or []
+        ck.cov["a_archive_member_plans_not_applicable"] = meta.get("member_plans_not_applicable", 0)
         if unconfirmed:
             ck.cov["a_slow_unconfirmed"] = unconfirmed[:50]
             ck.cov["not_explored"].append("(a) %d evaluations ran into the 10 s limit after their extractor had already used its 3 confirmations (100 s each); they are listed, not judged" % len(unconfirmed))
@@ -202,14 +210,65 @@ def part_a(ck, replay):
         shutil.rmtree(work, ignore_errors=True)
 
 
+def part_a_graphs(ck, replay):
+    """multi-file include graphs of the requirements extractor (IncludeGraph.tla)"""
+    if replay:
+        cases = [replay["case"]]
+    else:
+        s = vf.tlc("IncludeGraph", "IncludeGraph-sanity.cfg", workers=2, collect=False, timeout=120)
+        if s.violated != "SanityCycle":
+            raise vf.NotAVerdict("IncludeGraph sanity invariant not violated: vacuous model")
+        s = vf.tlc("IncludeGraph", "IncludeGraph-devsanity.cfg", workers=2, collect=False, timeout=120)
+        if s.violated != "Bounded":
+            raise vf.NotAVerdict("IncludeGraph: the deviation does not make the walk unbounded on the model")
+        r = vf.require_ok(vf.tlc("IncludeGraph", "IncludeGraph.cfg", timeout=600), "IncludeGraph.cfg")
+        ck.add_tlc("IncludeGraph.cfg", r, "NF = 3")
+        cases = r.cases
+        if len(cases) != 4096:
+            raise vf.NotAVerdict("IncludeGraph emitted %d cases, expected 4096" % len(cases))
+    obs = vf.run_harness("vmut", "incgraph", cases, args=["-a", "repo=" + vf.REPO], timeout=1500)
+    seen, match, cyc = set(), 0, 0
+    bad = {}
+    for o in obs:
+        if "harness_fatal" in o:
+            raise vf.NotAVerdict("harness: " + o["harness_fatal"][:1500])
+        c = cases[o["i"]]
+        seen.add(o["i"])
+        if o["class"] in c["allowed"]:
+            if o.get("pkgs") == len(c["expect"]["reachable_with_pkg"]):
+                match += 1
+            continue
+        bad.setdefault(o["class"], []).append((c, o))
+    if len(seen) != len(cases):
+        raise vf.NotAVerdict("incgraph returned %d of %d cases" % (len(seen), len(cases)))
+    for cls, lst in sorted(bad.items()):
+        lst.sort(key=lambda x: sum(len(f["includes"]) + f["pkg"] for f in x[0]["files"]))
+        c, o = lst[0]
+        ck.violation("Extract of %s did not return on an include graph: %s; %d graph(s), smallest: %s: %s"
+                     % (c["ex"], cls, len(lst), json.dumps(o.get("files")), (o.get("detail") or "").splitlines()[0][:300]),
+                     {"part": "a", "kind": "incgraph", "case": c, "class": cls, "files": o.get("files"), "detail": (o.get("detail") or "")[:6000]})
+    for c in cases:
+        fs = c["files"]
+        if any(not fs[j - 1]["pkg"] and j != 1 for f in fs for j in f["includes"]):
+            cyc += 1
+    ck.count(len(cases))
+    ck.cov["distinct_nontrivial"] += cyc
+    ck.cov["traces_validated_against_impl"] += len(cases)
+    ck.cov["a_include_graphs"] = len(cases)
+    ck.cov["a_include_graphs_with_an_include_of_a_package_less_file"] = cyc
+    ck.cov["a_include_graphs_package_count_equals_reachable_set"] = match
+
+
 def main():
     a = args.parse()
     ck = vf.Check("C02", "exploration", tier=a.tier, seed=a.seed)
     replay = None
     if a.replay:
         replay = json.load(open(a.replay))["replay"]
-    if replay is None or replay.get("part") == "a":
+    if replay is None or (replay.get("part") == "a" and replay.get("kind") != "incgraph"):
         part_a(ck, replay)
+    if replay is None or (replay.get("part") == "a" and replay.get("kind") == "incgraph"):
+        part_a_graphs(ck, replay)
     try:
         import c02_b
         if replay is None or replay.get("part") == "b":
@@ -220,11 +279,15 @@ def main():
                       "HeaderEdit, ZipEdit; depth <= 1 fine grid, depth 2 coarse grid) x every offline built-in extractor x every fixture <= 256 KiB under its "
                       "testdata x 2 (thorough 4) production-path classes accepted by its FileRequired; quick samples the depth-2 plans (150 per "
                       "<extractor, fixture, path>, stratified by operator, from VERIF_SEED); one evaluation = one real Extract call in a child process; "
-                      "distinct_nontrivial = evaluated <extractor, fixture+path, plan> triples whose mutated bytes differ from the fixture")
+                      "plans with member k act on the decompressed content of the k-th entry of a zip/jar/egg fixture (re-packed); companion units apply the "
+                      "depth-1 plans to a file the extractor reads next to a valid required file (os-release, go.sum, parent pom, locale messages, containerd snapshot db); "
+                      "plus every include graph of IncludeGraph.tla (3 requirements files, 512 edge sets x 8 package subsets) through the real requirements extractor; "
+                      "distinct_nontrivial = evaluated <extractor, fixture+path, plan> triples whose mutated bytes differ from the fixture (+ include graphs that include a package-less file)")
     ck.assumptions += ["(a) exploration, not proof: the grammar is bounded (grid spans, 3 occurrence selectors, 4 nesting depths, 64-byte header windows, zip records) and mutated files are clamped to 1 MiB",
                        "(a) the rpm extractor is instantiated with Config.Timeout = 1 s (its own bound for corrupt Berkeley DBs, default 5 min) and must honour it; every other extractor runs as list.go constructs it",
                        "(a) memory is the live heap + goroutine stacks above the level before the call, sampled every 5 ms in a process that runs one evaluation at a time; a spike shorter than the sampling period can be missed",
-                       "(a) Extract is called the way filesystem.runExtractor calls it (file opened through DirFS of a real directory, Root set); files an extractor opens itself next to its input (containerd snapshotter db) are present and valid"]
+                       "(a) Extract is called the way filesystem.runExtractor calls it (file opened through DirFS of a real directory, Root set); the returned inventory is consumed as runExtractor and Scan's package index do (every entry dereferenced, ToPURL called)",
+                       "(a) companions are discovered by recording which other paths an extractor asks its scan FS for on its unmodified fixtures (plus the containerd snapshotter db, opened with os calls); they are present and valid in every unit"]
     return ck.finish()
 
 
